@@ -303,7 +303,8 @@ def run(rep, tier, seed):
             else: comp_ok += 1
         i += 1 + k
     # context independence of a paragraph: the same one-line paragraph of inline markers (matched, nested, left over) renders
-    # to the same <p> content at the top level, inside a loose list item, a nested list item and a block quote
+    # to the same <p> content after another paragraph, inside a loose list item, a nested list item, a block quote and as the
+    # first thing in the document
     toks = ["*", "**", "_", "__", "a", "b ", " ", "`", "[", "]", "(u)", "~", "^", "*a*", "**b**", "_d_", "\\*", "a*b", "a_b_c", "**a *b* c**", "'", "}", "{", "\"", "--", "c"]
     ctx_docs, ctx_n = [], (120 if tier == "quick" else 6000)
     for _ in range(ctx_n):
@@ -312,7 +313,7 @@ def run(rep, tier, seed):
         ctx_docs.append(para)
     cjobs = []
     for para in ctx_docs:
-        for pre in ("x\n\n", "* x\n\n    ", "* x\n    * y\n\n        ", "x\n\n> "):      # (never the first thing in the document: intraword markers are read differently there)
+        for pre in ("x\n\n", "* x\n\n    ", "* x\n    * y\n\n        ", "x\n\n> ", ""):
             cjobs.append(((pre + para + "\n").encode(), "html", E["smart"] | E["notes"], 0))
     cres = tchk.convert(cjobs)
     ctx_ok = 0
@@ -320,12 +321,12 @@ def run(rep, tier, seed):
         m = re.findall(rb"<p>(.*?)</p>", b, re.S)
         return m[-1] if m else None
     for k, para in enumerate(ctx_docs):
-        rs = cres[4 * k:4 * k + 4]
+        rs = cres[5 * k:5 * k + 5]
         if not all(x.ok() for x in rs): continue
         ps = [last_p(x.out) for x in rs]
         if ps[0] is None: continue          # (the text was not a paragraph at the top level)
         if any(q != ps[0] for q in ps[1:]):
-            which = ["top level", "list item", "nested list item", "block quote"][[q != ps[0] for q in ps].index(True)]
+            which = ["top level", "list item", "nested list item", "block quote", "document that starts with it"][[q != ps[0] for q in ps].index(True)]
             bad.append(("paragraph-depends-on-context", "a paragraph renders differently inside a %s than at the top level" % which,
                         dict(tokens="", source=para, want=ps[0].decode("utf-8", "replace"), got=[q.decode("utf-8", "replace") if q else None for q in ps])))
         else: ctx_ok += 1
